@@ -25,6 +25,10 @@ def run(chk, tier):
     chk.rule("R-UNION", "the type-specific attribute union obj->attr is accessed only under a matching obj->type: every self-discriminating function is explored once per object type (21 values, product for two objects) by seeded constant propagation; guards are evaluated, not pattern-matched")
     nun, nuf = union.run(chk, P, units=('topology-xml.c',))
     chk.floor("R-UNION", "union accesses judged", nun, 60)
+    chk.rule("R-BUFSIZE", "a heap buffer handed to an snprintf-like producer (any function with an adjacent writable (char *, size) parameter pair) is handed over with exactly its allocated size (allocation and size expressions compared after resolving named temporaries and realloc aliases)")
+    import bufsize
+    nbs = bufsize.run(chk, P, units=('topology-xml.c', 'topology-xml-nolibxml.c'))
+    chk.floor("R-BUFSIZE", "heap buffers handed to producers", nbs, 4)
     chk.rule("R-SLOTLEN", "the two XML backends agree on length-delimited text buffers: an implementation of a callback slot that reads a (buffer, length) pair uses the length whenever its sibling does")
     nsl = slots.run(chk, P, E, records=("hwloc__xml_export_state_s", "hwloc_xml_backend_data_s", "hwloc_xml_callbacks"))
     chk.floor("R-SLOTLEN", "(implementation, buffer/length pair) facts", nsl, 6)
@@ -38,7 +42,8 @@ def run(chk, tier):
     r = snp.SnpRule(P, ["topology-xml-nolibxml.c"])
     st = r.run(chk)
     chk.floor("R-SNP", "producer call sites in the built-in exporter", st["producers"], 10)
-    chk.decided += ['export and import access the attribute union only under the matching object type',
+    chk.decided += ["the built-in exporter's second pass and the base64 helpers are given exactly the size of the buffer allocated for them",
+                    'export and import access the attribute union only under the matching object type',
                     "element content (userdata, value arrays) is written with exactly the announced length by both backends",
                     "nothing that is exported is ignored on import (attribute names and child tags, per element)", "every support bit is carried",
                     "what the built-in backend escapes it unescapes", "both backends implement the whole interface", "exports start from refreshed distances; file/buffer variants agree"]
